@@ -512,7 +512,7 @@ theorem C02_inet_mapped (b : Bytes) (h16 : b.length = 16) (hz : b.take 10 = List
 
 /-- the values for which the same-type round trip is claimed, built over the scalar triples of `Leaf`: pointers and
     pointers to pointers (nil, or a chain down to a value that is not written as null), lists / sets bound to slices and
-    arrays, maps (a Go map holds each key once), nil slices / maps — nested to ANY depth.  Under protocol ≤ 2 the
+    arrays, maps (a Go map holds each key once), nil slices / maps, tuples bound to structs — nested to ANY depth.  Under protocol ≤ 2 the
     elements must not be null (the 2-byte framing has no null element: KF-C02-3). -/
 inductive Clean (p : Nat) : CqlTy → GoTy → GoVal → Prop
   | leaf {t ty g} : Leaf t ty g → Clean p t ty g
@@ -527,6 +527,11 @@ inductive Clean (p : Nat) : CqlTy → GoTy → GoVal → Prop
       (p ≤ 2 → ∀ kv, kv ∈ kvs → NonNull p kt kv.1 ∧ NonNull p vt kv.2) → KeysDistinct kvs →
       Clean p (.map kt vt) (.map gk gv) (.map false kvs)
   | nilMap (kt vt : CqlTy) (gk gv : GoTy) : Clean p (.map kt vt) (.map gk gv) (.map true [])
+  /-- tuple<T1, …, Tn> ↔ struct whose i-th field is of type goType(Ti) (`val`) or *goType(Ti) (`null`: nil, `ptr`:
+      pointing to a value not written as null), the held values `Clean` again — tuples inside lists inside tuples … -/
+  | tuple (fs : List TField) : (∀ f, f ∈ fs → f.kind ≠ .null → Clean p f.t (goTypeOf f.t) f.v) →
+      (∀ f, f ∈ fs → f.side p) →
+      Clean p (.tuple (fs.map (·.t))) (.struct (fs.map (·.ty))) (.struct (fs.map (·.val)))
 
 /-- NESTED ROUND TRIP, by structural induction: for every `Clean` value — scalars inside pointers inside lists inside
     maps inside lists …, any depth — whatever Marshal returns without error, Unmarshal of it into a fresh value of the same
@@ -543,6 +548,7 @@ theorem C02_nested_roundtrip (p : Nat) (t : CqlTy) (ty : GoTy) (g : GoVal) (h : 
   | array ht _ hnn ih => exact rt_array p _ _ ht _ _ ih hnn
   | map _ _ hnn hd ihk ihv => exact rt_map p _ _ _ _ _ (fun kv hkv => ⟨ihk kv hkv, ihv kv hkv⟩) hnn hd
   | nilMap kt vt gk gv => exact rt_nil_map p kt vt gk gv
+  | tuple fs _ hside ih => exact rt_tuple_struct p _ _ _ (fieldsRT_of p fs ih hside)
 
 /-- non-vacuity: list<map<text, list<int>>> — a slice holding a nil map and a map from "b" to a slice of *int (one
     pointing to 7, one nil = a null element, protocol 4).  (Maps with two or more entries: the hypothesis `KeysDistinct`
@@ -569,6 +575,27 @@ example : Clean 4 (.list (.map .text (.list .int))) (.slice (.map (.str false) (
       · exact .ptr 1 rfl (.leaf (.int (col := .int) rfl _ _ _ (by decide))) (by
           unfold NonNull; simp [marshal, marshalScalar, marshalIntColumn, optM, marshalIntKind])
       · exact .nilptr _ 0 _ rfl
+
+/-- non-vacuity of the tuple constructor: list<tuple<int, text>> ↔ []struct{ *int; string } = [(null, "A")] -/
+example : Clean 4 (.list (.tuple [.int, .text])) (.slice (.struct [.ptr (.int .int false), .str false]))
+    (.slice false [.struct [.nilptr, .str false [65]]]) := by
+  refine .slice (Or.inl rfl) ?_ (by intro h; omega)
+  intro v hv
+  simp at hv; subst hv
+  refine Clean.tuple [⟨.int, .null, .nil⟩, ⟨.text, .val, .str false [65]⟩] ?_ ?_
+  · intro f hf hk
+    simp at hf
+    rcases hf with rfl | rfl
+    · exact absurd rfl hk
+    · exact .leaf (.str (Or.inr (Or.inl rfl)) _ _)
+  · intro f hf
+    simp at hf
+    rcases hf with rfl | rfl
+    · exact nullOK_scalar 4 .int rfl
+    · refine ⟨rfl, rfl, ?_⟩
+      intro b hb
+      simp [marshal, marshalScalar, marshalVarcharColumn] at hb
+      subst hb; simp
 
 /-- TUPLE step (element theorems as hypotheses, `FieldsRT`): a struct bound to tuple<T1, …, Tn> whose i-th field has
     type goType(Ti) — holding a value whose round trip holds — or *goType(Ti) — nil, or pointing to such a value that is
